@@ -770,27 +770,9 @@ func (rw *rworld) applyJitter() {
 		return
 	}
 	for _, rn := range rw.nodes {
-		rn.sn.Disk.Yield = spinJitter(j, uint64(rw.s.Cfg["jsalt"]))
+		rn.sn.Disk.Yield = sim.SpinJitter(j, uint64(rw.s.Cfg["jsalt"]))
 	}
 	rw.o.Count("fault:disk-scheduling-jitter", 1)
-}
-
-// spinJitter returns a datastore yield hook that makes about one goroutine in three a slow one: each of its
-// datastore operations first yields the processor n times (the others are not delayed at all), so that of two
-// goroutines that become runnable at the same instant sometimes the one with fewer steps arrives last.
-func spinJitter(n int64, salt uint64) func() {
-	return func() {
-		x := (goid() + salt) * 0x9E3779B97F4A7C15
-		x ^= x >> 29
-		x *= 0xBF58476D1CE4E5B9
-		x ^= x >> 32
-		if x%3 != 0 {
-			return
-		}
-		for k := n; k > 0; k-- {
-			runtime.Gosched()
-		}
-	}
 }
 
 func c13RestartGen(r *rand.Rand, tier string) *sim.Scn {
